@@ -3,7 +3,7 @@ import ast
 
 from ..astx import (calls_in, dotted, norm, src, iter_nodes, aliases_of, assigned_targets,
                     assigned_names, const_value, is_const, parent_chain)
-from ..lib import (cfg_nodes_with_call, node_calls, returns, raises, raised_class, stmt_assigns_attr,
+from ..lib import (call_arg, relation, truth, other, cmp_views, core, holds_region, conditions, eval_conditions, relation_tests, atom_key, expand_condition, mode_mismatch_conditions, cfg_nodes_with_call, node_calls, returns, raises, raised_class, stmt_assigns_attr,
                    callee_last, guard_region, find_test_nodes, compare_parts, is_name, is_self_attr, node_roots)
 from ..linear import ctext, lin, Lin
 from ..loader import AnalysisError
@@ -278,12 +278,12 @@ def check_deadline_loop(c, repo, f, read, expire_call):
     if good:
         rn = good[0]
         # guarded by timeout is not None
-        guards = [t for t in g.nodes if t.kind == 'test' and rn in guard_region(g, t, 'true') and norm(t.ast) == '%s is not None' % var]
+        guards = [(t, lab) for t, lab in none_tests(g, var) if rn in guard_region(g, t, other(lab))]
         c.check(bool(guards), f, rn.ast, 'the recomputation is skipped only for timeout=None', kind='path', tag='recompute-guard')
         if read:
             rd = reads[0]
-            # between two reads, unless timeout is None, the recompute happens: every path rd -> rd passes rn or a false edge of the None-guard
-            nones = set((t, 'false') for t in guards)
+            # between two reads, unless timeout is None, the recompute happens: every path rd -> rd passes rn or the is-None edge of the None-guard
+            nones = set(guards)
             ok, p = g.must_pass(rd, {rd}, {rn}, skip_labels=('exc',), through_edges=nones)
             c.check(ok, f, rn.ast, 'after every read the remaining time is recomputed before the next read',
                     witness='path: ' + g.describe_path(p) if p else None, tag='recompute-every-iteration')
@@ -301,8 +301,9 @@ def check_deadline_loop(c, repo, f, read, expire_call):
     strict = isinstance(cmp_.ops[0], ast.Lt) and is_const(cmp_.comparators[0], 0)
     c.check(strict, f, t.ast, 'expired means remaining < 0 strictly: timeout=0 still performs one poll', witness=norm(cmp_), kind='alg', tag='expiry-strict')
     if read:
-        ok, p = g.must_pass(hdr, set(reads), {t}, skip_labels=('exc',), include_start=True) if False else g.dominated_by(reads[0], {t})
-        c.check(ok, f, t.ast, 'the expiry test precedes the read in every iteration', tag='expiry-before-read')
+        ok, p = g.must_pass(hdr, set(reads), {t}, skip_labels=('exc',), through_edges=set(none_tests(g, var)))
+        c.check(ok, f, t.ast, 'the expiry test precedes the read in every iteration (unless timeout is None)',
+                witness='path: ' + g.describe_path(p) if p else None, tag='expiry-before-read')
         reg = guard_region(g, t, 'true')
         rets = [n for n in reg if n.kind == 'stmt' and isinstance(n.ast, ast.Return) and isinstance(n.ast.value, ast.Call)
                 and callee_last(n.ast.value) == expire_call]
@@ -314,6 +315,17 @@ def check_deadline_loop(c, repo, f, read, expire_call):
 
 
 # ------------------------------------------------------------------ D4
+
+def none_tests(g, var):
+    """[(test node, outcome on which <var> IS None)] for every `var is None` / `var is not None` test, however written"""
+    out = []
+    for t in g.nodes:
+        if t.kind == 'test' and t.ast is not None:
+            r = relation(t.ast)
+            if r and r[0] == 'is' and is_name(r[1], var) and is_const(r[2], None):
+                out.append((t, r[3]))
+    return out
+
 
 def check_wrappers(c, repo):
     specs = (('utils:select_ignore_interrupts', 'select.select', 3), ('utils:poll_ignore_interrupts', 'poll', 0))
@@ -338,18 +350,33 @@ def check_wrappers(c, repo):
                 and isinstance(n.test.ops[0], (ast.Lt, ast.LtE)) and is_const(n.test.comparators[0], 0)]
         ok = len(negs) == 1 and any(isinstance(s, ast.Return) for s in negs[0].body)
         c.check(ok, f, negs[0] if negs else h, 'a deadline that passed during the interruption returns "nothing ready"', kind='ast', tag='eintr-expired')
-        eintr = [n for n in ast.walk(h) if isinstance(n, ast.If) and 'errno.EINTR' in norm(n.test)]
-        ok = len(eintr) == 1 and any(isinstance(s, ast.Raise) and s.exc is None for s in eintr[0].orelse)
-        if eintr:
-            cpe = compare_parts(eintr[0].test)
-            ok = ok and cpe is not None and isinstance(cpe[1], ast.Eq) and norm(cpe[2]) == 'errno.EINTR' and norm(cpe[0]).endswith('.args[0]')
-            # the recomputation happens in the EINTR branch, under `timeout is not None`
-            inb = [r_ for r_ in rec if any(r_ is d for s_ in eintr[0].body for d in ast.walk(s_))]
-            gd = [n for n in ast.walk(eintr[0]) if isinstance(n, ast.If) and norm(n.test) == '%s is not None' % var and
-                  any(r_ is d for r_ in rec for s_ in n.body for d in ast.walk(s_))]
-            c.check(len(inb) == 1 and len(gd) == 1, f, eintr[0], 'only an interrupted wait (EINTR) is retried, with the remaining time recomputed unless timeout is None',
-                    witness=norm(eintr[0].test), kind='ast', tag='eintr-branch')
-        c.check(ok, f, eintr[0] if eintr else h, 'errors other than EINTR are re-raised unchanged', kind='ast', tag='other-errors')
+        # the errno test, whichever way round it is written: on the outcome where errno IS EINTR the wait is retried,
+        # on the other outcome the very next thing is a bare raise
+        eintr = []
+        for t in g.nodes:
+            if t.kind == 'test' and any(t.ast is d for d in ast.walk(h)):
+                rel = relation(t.ast)
+                if rel and rel[0] == 'eq' and {norm(rel[1]), norm(rel[2])} & {'errno.EINTR'} and \
+                        any(norm(x).endswith('.args[0]') for x in (rel[1], rel[2])):
+                    eintr.append((t, rel[3]))
+        ok = len(eintr) == 1
+        if ok:
+            t, lab = eintr[0]
+            nxt = [s for s, l in t.succ if l == other(lab)]
+            ok = len(nxt) == 1 and nxt[0].kind == 'stmt' and isinstance(nxt[0].ast, ast.Raise) and nxt[0].ast.exc is None
+            # the recomputation happens on the EINTR outcome, under `timeout is not None`
+            reg = guard_region(g, t, lab, skip_labels=())
+            recn = [n for n in g.nodes if n.kind == 'stmt' and any(n.ast is r_ for r_ in rec)]
+            gd = []
+            for t2 in g.nodes:
+                if t2.kind == 'test' and t2 in reg:
+                    r2 = relation(t2.ast)
+                    if r2 and r2[0] == 'is' and is_name(r2[1], var) and is_const(r2[2], None) and \
+                            all(n in guard_region(g, t2, other(r2[3]), skip_labels=()) for n in recn):
+                        gd.append(t2)
+            c.check(len(recn) == 1 and recn[0] in reg and len(gd) == 1, f, t.ast, 'only an interrupted wait (EINTR) is retried, with the remaining time recomputed unless timeout is None',
+                    witness=norm(t.ast), kind='ast', tag='eintr-branch')
+        c.check(ok, f, eintr[0][0].ast if eintr else h, 'errors other than EINTR are re-raised unchanged', kind='ast', tag='other-errors')
         # the primitive receives the (remaining) timeout
         prims = [k for k in calls_in(f.node) if (dotted(k.func) or '').endswith(prim) and dotted(k.func) != 'select.poll']
         c.need(len(prims) == 1, '%s: primitive call %s not found' % (q, prim))
@@ -515,19 +542,20 @@ def check_pty_polls(c, repo):
     # every actual read happens only after a poll reported the descriptor ready
     reads = cfg_nodes_with_call(f, lambda k: callee_last(k) == 'read_nonblocking' and isinstance(k.func.value, ast.Call))
     for n, k in reads:
-        ok = False
-        for t in g.nodes:
-            if t.kind == 'test' and n in guard_region(g, t, 'true'):
-                if any(isinstance(x, ast.Call) and isinstance(x.func, ast.Name) and x.func.id == 'select' for x in conjuncts(t.ast)):
-                    ok = True
-        c.check(ok, f, k, 'the (blocking) os.read is reached only when a poll just reported data: the test guarding it has select(...) as a conjunct',
+        ok = any(v and a.startswith('select(') for a, v in conditions(g, n))
+        c.check(ok, f, k, 'the (blocking) os.read is reached only when a poll just reported data: it is conditional on select(...) being true',
                 witness=norm(k), kind='path', tag='read-after-ready:' + str(reads.index((n, k))))
     # the timed wait is skipped only for timeout == 0
     if timed:
         tn = [t for t in g.nodes if t.kind == 'test' and any(x is timed[0][1] for x in ast.walk(t.ast))]
-        ok = len(tn) == 1 and sorted(norm(x) for x in conjuncts(tn[0].ast)) == sorted(['timeout != 0', 'select(timeout)'])
+        got = eval_conditions(g, tn[0], timed[0][1]) if len(tn) == 1 else None
+        # evaluated exactly when timeout != 0 (and not inside any other decision made after the sentinel was replaced)
+        sent = [t for t in g.nodes if t.kind == 'test' and atom_key(t.ast)[0] == atom_key(ast.parse('timeout == -1', mode='eval').body)[0]]
+        base = conditions(g, sent[0]) if len(sent) == 1 else set()
+        need = atom_key(ast.parse('timeout == 0', mode='eval').body, False)
+        ok = got is not None and need in got and got - base <= {need, ('self.isalive()', True)}
         c.check(ok, f, tn[0].ast if tn else None, 'the timed wait is skipped exactly for timeout == 0 and otherwise decides whether data arrived',
-                witness=norm(tn[0].ast) if tn else '', kind='alg', tag='timed-wait-guard')
+                witness='evaluated under %s' % sorted(got or []), kind='alg', tag='timed-wait-guard')
     # waitnoecho outcomes
     w = repo.func('pty_spawn:spawn.waitnoecho')
     gw = w.cfg
